@@ -39,17 +39,16 @@ func (err withStack) Unwrap() error {
 	return err.inner
 }
 
-var noError = errors.New("no error")
-
 // WithStack returns an error that wraps err and adds the call stack of the call to WithStack to
 // Error(). If err is nil or already has a stack attached, returns err.
 func WithStack(err error) error {
 	if err == nil {
 		return nil
 	}
-	// use noError in case anything along err's chain has a custom Is that calls Error() for some
-	// reason.
-	if errors.Is(err, withStack{inner: noError}) {
+	// errors.Is can never match a withStack target: the type holds a slice, so it is not
+	// comparable, and it has no Is method. Look for the type instead.
+	var ws withStack
+	if errors.As(err, &ws) {
 		return err
 	}
 	var buf [64]uintptr
